@@ -89,7 +89,7 @@ pub fn prop(id: &str) -> Option<Prop> {
         "C08" => Prop {
             id: "C08",
             views: v(&[View::Table]),
-            rule: "proptest-generated SAFE histories; after every op the link table of every accessible object (hook H1) is compared with the adoption ledger implied by the calls; non-trivial = the history has an unadopt that hit zero or was unmatched, and a death of an object that had records in a surviving peer; distinct = distinct script hash",
+            rule: "proptest-generated SAFE histories (a quarter of the workers CONSUME, a quarter ELIDE with the known finding excluded); after every op the link table of every accessible object (hook H1) is compared with the adoption ledger implied by the calls; non-trivial = the history has an unadopt that hit zero or was unmatched, and a death of an object that had records in a surviving peer; distinct = distinct script hash",
             quick_cases: 120_000,
             thorough_cases: 2_000_000,
             layouts_quick: 1,
@@ -242,6 +242,13 @@ pub fn gen_cfg(id: &str, tier: Tier, variant: u64) -> GenCfg {
         // survivors that gave up a recorded handle without unadopt: their tables
         // must be purged of a dying adoptee even if its destructor panics
         "C11" if variant % 4 == 2 => {
+            let mut g = GenCfg::new(Mode::Elide, ops);
+            g.weights.remove = 12;
+            g
+        }
+        // bookkeeping must stay exact (records of a destroyed object disappear
+        // from every peer) also when handles were given up without unadopt
+        "C08" if variant % 4 == 2 => {
             let mut g = GenCfg::new(Mode::Elide, ops);
             g.weights.remove = 12;
             g
